@@ -898,6 +898,8 @@ func runClosedLoopBG(c *Ctx) {
 			switch sc.Name {
 			case "traffic-then-plain":
 				atFin(sc, combo{"routeTrafficToNew", "delete"}) // bgCursorCarried
+				atState(sc, combo{"paused", "release:v1"})      // a rollback while half of the traffic is on the canary Service
+				atState(sc, combo{"paused", "release:v3"})      // a newer revision while step 1 waits: refused
 			case "pct-traffic":
 				atState(sc, combo{"upgrade", "release:v1"}) // bgRollbackNoSurge: a rollback before the first surge pod
 				atState(sc, combo{"paused", "release:v1"})  // a rollback with surge pods: completes, partition stays (csPartitionKept)
